@@ -11,12 +11,23 @@ from happysimulator.core.logical_clocks import (HLCTimestamp, HybridLogicalClock
 from happysimulator.core.node_clock import FixedSkew, LinearDrift, NodeClock
 from happysimulator.core.temporal import Duration, Instant
 
+class HarnessLimit(RuntimeError):
+    """The recorder cannot observe what it needs (private field moved): not a verdict."""
+
+
 LOCAL, SEND, RECV = 0, 1, 2
 KIND = {"local": LOCAL, "send": SEND, "recv": RECV}
 
 
 def nid(n):
     return f"n{n}"
+
+
+def _last_of(h):
+    try:
+        return h._last
+    except AttributeError as ex:
+        raise HarnessLimit("HybridLogicalClock._last not found") from ex
 
 
 def run_history(nn, events, *, readings=None, models=None, true_times=None, serialise=False):
@@ -62,7 +73,7 @@ def run_history(nn, events, *, readings=None, models=None, true_times=None, seri
             lam[n].receive(lt)
             vcs[n].receive(dict(vs))
             hlcs[n].receive(rts)
-            ts = hlcs[n]._last
+            ts = _last_of(hlcs[n])
         L.append(lam[n].time)
         V.append(vcs[n].snapshot())
         H.append(ts)
@@ -110,7 +121,7 @@ def run_history_sim(nn, events, models, true_times, serialise=False):
                 self.lam.receive(lt)
                 self.vc.receive(dict(vs))
                 self.hlc.receive(rts)
-                ts = self.hlc._last
+                ts = _last_of(self.hlc)
             rec[j] = (p, self.lam.time, self.vc.snapshot(), ts)
             return None
 
@@ -136,7 +147,11 @@ def to_trace(tid, nn, events, pts, L, V, H, ids):
     vobjs = []
     for j in range(ne):
         o = VectorClock(ids[events[j][0] - 1], list(ids))
-        o._vector = dict(V[j])
+        o.receive(dict(V[j]))            # public way to load a snapshot ...
+        try:
+            o._vector = dict(V[j])       # ... without the self increment
+        except AttributeError as ex:
+            raise HarnessLimit("VectorClock._vector not found") from ex
         vobjs.append(o)
     vm = [[int(bool(vobjs[i].happened_before(vobjs[j]))) for j in range(ne)] for i in range(ne)]
     hm = [[int(bool(H[i] < H[j])) for j in range(ne)] for i in range(ne)]
